@@ -550,12 +550,16 @@ class WordOfIndicesVariables(BaseVariableGroup):
         self.seq2vid={}
         if wordtype == 'combinations':
             gen = combinations(range(1, n+1), k)
-        elif wordtype == 'combinations_with_replacements':
+        elif wordtype == 'combinations_with_replacement':
             gen = combinations_with_replacement(range(1,n+1),k)
         elif wordtype == 'permutations':
             gen = permutations(range(1, n+1), k)
         elif wordtype == 'words':
             gen = product(range(1, n+1), repeat=k)
+        else:
+            raise ValueError(
+                "wordtype must be one among 'combinations', 'permutations',"
+                " 'combinations_with_replacement', 'words'")
 
         vid = self.offset
         for c in gen:
